@@ -588,6 +588,11 @@ func runC12(c *vk.Ctx) {
 	c12RoundTrip(c, c.Pick(1500, 60000))
 	c12Decoder(c)
 	c12Rejection(c)
+	if !c.Quick() {
+		// coverage-guided fuzzing of the decoder and of loading through both loaders (count based)
+		runGoFuzz(c, "FuzzSnapshotDecode", 1500000)
+		runGoFuzz(c, "FuzzSnapshotLoad", 30000)
+	}
 	c.Require("roundtrips", 500)
 	c.Require("roundtrips_crossing_4096_byte_buffer", 10)
 	c.Require("damaged_truncation", 20)
